@@ -416,6 +416,60 @@ def equiv_work(payload):
     import shutil
 
     shutil.rmtree(tmpd, ignore_errors=True)
+    # key order of the `constrains` section: sections that interact (a tie whose non-head member is fixed, a bound and a
+    # Gaussian constraint on one parameter, a freed parameter) in every order of the keys
+    cb = base3(jR=(1, 1))
+    tr = "A->R_BD.CR_BD->B.D_total_0"
+    tc = "A->R_CD.BR_CD->C.D_total_0"
+    sections = {
+        "decay": {"fix_chain_idx": 0, "fix_chain_val": 1.0},
+        "var_equal": [[tc + "r", tr + "r"]],
+        "fix_var": {tr + "r": 0.8, tc + "i": 0.25},
+        "free_var": ["R_BC_mass"],
+        "var_range": {"R_BC_mass": [4.1, 4.3]},
+        "gauss_constr": {"R_BC_mass": [4.16, 0.02]},
+    }
+    ref_sig = None
+    for n_, order in enumerate(itertools.permutations(list(sections))):
+        if payload["tier"] == "quick" and n_ % 24 not in (0, 7, 13, 22):
+            continue
+        v = copy.deepcopy(cb)
+        v["constrains"] = {k: copy.deepcopy(sections[k]) for k in order}
+        case = {"part": "equiv", "label": "constrains-order", "order": list(order)}
+        try:
+            c_, a_ = _load(v)
+            sg = signature(c_, a_)
+        except Exception as ex:
+            res.violation("equiv:constrains-order:exception", "constrains keys in order %r raised %s: %s" % (order, type(ex).__name__, str(ex)[:160]), case)
+            continue
+        res.case(nontrivial_key=("constrains-order", order), outcome="constrains-order")
+        if ref_sig is None:
+            ref_sig = sg
+            if tr + "r" in sg["trainable"] or tc + "r" in sg["trainable"]:
+                res.violation("equiv:constrains-order:semantics", "fixing the non-head member of a tie group leaves the group free", case)
+            continue
+        diff = sig_diff(ref_sig, sg)
+        if diff:
+            res.violation("equiv:constrains-order", "the key order %r of the constrains section changes the model in %s" % (list(order), diff), case)
+    # particle-level decay_params on the mother + an explicit option on ONE of its decays: the option must not reach the
+    # sibling decays (the parity-forbidden chain through R_BD stays removed), whatever the order of the entries
+    for flip in (False, True):
+        v = base3(jR=(1, 1), top=(0, -1))
+        lst = [d[:2] + ([{"p_break": True}] if d[0] == "R_BC" else []) for d in v["decay"]["A"]]
+        v["decay"]["A"] = lst[::-1] if flip else lst
+        e = copy.deepcopy(v)
+        v["particle"]["$top"]["A"]["decay_params"] = {"has_barrier_factor": True}
+        case = {"part": "equiv", "label": "decay_params-sibling", "flip": flip}
+        try:
+            c1, a1 = _load(copy.deepcopy(e))
+            c2, a2 = _load(copy.deepcopy(v))
+            diff = sig_diff(signature(c1, a1), signature(c2, a2))
+        except Exception as ex:
+            res.violation("equiv:decay_params:exception", "card with particle-level decay_params raised %s: %s" % (type(ex).__name__, str(ex)[:160]), case)
+            continue
+        res.case(nontrivial_key=("decay_params", flip), outcome="decay_params")
+        if diff:
+            res.violation("equiv:decay_params-sibling", "a default-valued particle-level decay_params entry on the mother changes the model in %s (per-decay option of one decay reaches its siblings?)" % (diff,), case)
     # key-order permutations of `particle` and `decay` (cards with <= 4 keys each besides $top/$finals)
     base = base3(jR=(1, 1))
     c0, a0 = _load(copy.deepcopy(base))
